@@ -11,6 +11,7 @@ THEOREMS = [
     "Sb.C20.rgbw_min_subtraction", "Sb.C20.interval_never_inverted", "Sb.C20.interval_collapses",
     "Sb.C20.code_cruise_expression", "Sb.C20.profile_continuous_at_boundary", "Sb.C20.profile_monotone",
             "Sb.C20.lerp_zero", "Sb.C20.lerp_one", "Sb.C20.lerp_between", "Sb.C20.rgbw_reference_le", "Sb.C20.refParams_div_nonneg",
+            "Sb.C20.conv_step_good", "Sb.C20.conv_history_good", "Sb.C20.conv_history_contract", "Sb.C20.conv_temperature_fresh",
             "Sb.Proofs.roundF32_mono", "Sb.Proofs.roundF32_natCast"]
 NAN = 0x7FC00000
 RULE = ("travel time: grids of (distance, speed, acceleration) incl. the regime boundary distance = speed^2/acceleration and its "
@@ -100,6 +101,42 @@ def generate(rng, tier):
         out.append((f"rgbw f {c[0]} {c[1]} {c[2]} {rng.getrandbits(8)}", True))
         ref = rng.choice(refs) if rng.random() < 0.5 else tuple(rng.getrandbits(8) for _ in range(3))
         out.append((f"rgbw r {c[0]} {c[1]} {c[2]} {ref[0]} {ref[1]} {ref[2]}", True))
+    # ---- one conversion object through a history of set-up calls (colour temperatures included)
+    temps = [1000.0, 999.0, 500.0, 0.0, -0.0, -50.0, 1500.0, 2700.0, 4500.0, 6500.0, 6599.0, 6600.0, 6601.0, 6700.0, 10000.0,
+             39999.0, 40000.0, 40001.0, 1e6, 1e30]
+    tb = [f2b(x) for x in temps] + [next_up(f2b(6600.0)), next_down(f2b(6600.0)), next_up(f2b(1000.0)), next_down(f2b(1000.0)),
+                                    next_up(f2b(40000.0)), next_down(f2b(40000.0)), PINF, NINF]
+    def colour():
+        return rng.choice([(0, 0, 0), (255, 255, 255), (255, 0, 0), (1, 2, 3)]) if rng.random() < 0.2 else tuple(rng.getrandbits(8) for _ in range(3))
+    def conv():
+        c = colour()
+        return "c%d,%d,%d" % c
+    for t in tb:
+        out.append((f"rgbwseq t{t} " + " ".join(conv() for _ in range(6)), True))
+    for t in range(1000, 40001, 25 if thorough else 400):
+        out.append((f"rgbwseq t{f2b(float(t))} {conv()} {conv()}", True))
+    for _ in range(6000 if thorough else 900):
+        steps = []
+        last_t = None
+        for _ in range(rng.randrange(2, 9)):
+            k = rng.random()
+            if k < 0.3:
+                # repeat the previous temperature often: the set-up is skipped when the object already holds it
+                t = last_t if (last_t is not None and rng.random() < 0.5) else (rng.choice(tb) if rng.random() < 0.5 else f2b(rng.uniform(500, 45000)))
+                last_t = t
+                steps.append(f"t{t}")
+            elif k < 0.45:
+                steps.append("r%d,%d,%d" % (rng.choice(refs) if rng.random() < 0.5 else colour()))
+            elif k < 0.55:
+                steps.append(f"f{rng.getrandbits(8)}")
+            elif k < 0.65:
+                steps.append("s")
+            elif k < 0.7:
+                steps.append("o")
+            else:
+                steps.append(conv())
+        steps.append(conv())
+        out.append(("rgbwseq " + " ".join(steps), True))
     # ---- buffer
     sizes = [0, 1, 2, 3, 8, 9]
     ops = []
